@@ -51,7 +51,8 @@ def traverse (c : Cfg) (s : Store) (qv : List Nat) (q : QueryOpts) (searchK : Na
         traverse c s qv q searchK fuel queue'
           (nns ++ (match q.candidates with | some cs => IdSet.inter ids cs | none => ids))
       | some (.split l r normal) =>
-        let margin := if c.metric.isZero normal then F32.zero else c.metric.margin c.host normal qv
+        let margin0 := if c.metric.isZero normal then F32.zero else c.metric.margin c.host normal qv
+        let margin := if F32.isNaN margin0 then F32.zero else margin0
         traverse c s qv q searchK fuel
           ((Metric.pqDistance dist margin true, r) :: (Metric.pqDistance dist margin false, l) :: queue') nns
       | some _ => .error (.panic "unexpected value under a node key")
